@@ -267,6 +267,24 @@ static void checkUb(const lg::Pair &p, int before, const char *where) {
   if (g_ub != before) C.fail(std::string("C05:") + p.id + ":ub", "undefined conversion reported by the sanitizer in %s", where);
 }
 
+// which layout the Lean driver uses for this tuple / this message (formatting of the correspondence line only):
+// the path variant whose parameter condition holds, resp. whose payload constants are present; last = the pair itself
+static const lg::Variant &variantForSet(const lg::Pair &p, const lg::Val *v) {
+  for (int k = 0; k + 1 < p.nv; k++) if (p.v[k].cond && p.v[k].cond(v)) return p.v[k];
+  return p.v[p.nv - 1];
+}
+static const lg::Variant &variantForParse(const lg::Pair &p, const std::vector<unsigned char> &b) {
+  for (int k = 0; k + 1 < p.nv; k++) {
+    bool ok = true;
+    for (const int *g = p.v[k].guard; *g >= 0; g += 2) {
+      int bit = ((size_t)(g[0] / 8) < b.size()) ? ((b[g[0] / 8] >> (g[0] % 8)) & 1) : 0;
+      if (bit != g[1]) ok = false;
+    }
+    if (ok) return p.v[k];
+  }
+  return p.v[p.nv - 1];
+}
+
 static void execSet(const lg::Pair &p, const std::vector<std::string> &w, const std::vector<const char *> *classes) {
   Last &L = g_last[p.id]; L.in.clear(); L.valid = false;
   std::vector<lg::Val> v(p.nf);
@@ -282,16 +300,18 @@ static void execSet(const lg::Pair &p, const std::vector<std::string> &w, const 
   L.payloadHex = hex(m.Data, m.DataLen); L.valid = true;
   if (m.PGN != p.pgn) C.fail(key(p, "guard", "setpgn"), "setter produced PGN %lu", m.PGN);
   // what the model prints
-  if (!p.modelSetter) { C.out("untranslated"); return; }
-  int n = p.modelPrefixBytes >= 0 ? std::min(p.modelPrefixBytes, m.DataLen) : m.DataLen;
+  const lg::Variant &V = variantForSet(p, v.data());
+  if (V.id != p.id) C.count(std::string("variant_") + V.id);
+  if (!V.modelSetter) { C.out("untranslated"); return; }
+  int n = V.modelPrefixBytes >= 0 ? std::min(V.modelPrefixBytes, m.DataLen) : m.DataLen;
   std::string o;
   static const char *d = "0123456789abcdef";
   for (int i = 0; i < n; i++) {
-    bool unk = false; for (int k = 0; k < p.nUnk; k++) if (p.unkBytes[k] == i) unk = true;
+    bool unk = false; for (int k = 0; k < V.nUnk; k++) if (V.unkBytes[k] == i) unk = true;
     if (unk) o += "??"; else { o += d[m.Data[i] >> 4]; o += d[m.Data[i] & 15]; }
   }
   if (o.empty()) o = "-";
-  if (p.modelPrefixBytes >= 0) o += "+";
+  if (V.modelPrefixBytes >= 0) o += "+";
   C.outs(o);
 }
 
@@ -319,14 +339,15 @@ static void execParse(const lg::Pair &p, const std::vector<std::string> &w, cons
   bool ok = p.parse(m, v.data());
   checkUb(p, ub0, "the parser");
   // model line
-  if (!p.modelParser) C.out("untranslated");
+  const lg::Variant &V = variantForParse(p, bytes);
+  if (!V.modelParser) C.out("untranslated");
   else if (!ok) C.out("refuse");
   else {
     std::string o;
     for (int i = 0; i < p.nf; i++) {
-      if (p.f[i].modelOut == 0) continue;
+      if (V.modelOut[i] == 0) continue;
       if (!o.empty()) o += " ";
-      o += p.f[i].modelOut == 2 ? std::string("?") : outCode(p, p.f[i], v[i]);
+      o += V.modelOut[i] == 2 ? std::string("?") : outCode(p, p.f[i], v[i]);
     }
     C.outs(o.empty() ? "ok" : o);
   }
